@@ -38,9 +38,9 @@ CHECKS = {
    note="Trusted: store model abstracts byte contents (extents, sizes, write sets); transcription validated by c04unit on >50k steps; global-heap collections and filters not in the store model.",
    design="7/C04", technique="Coq frame theorem over an extent/ownership store model + byte-range diff tie + history-level tie"),
  "C05": dict(
-   text="Theorems (Coq): extents_ok (sorted sweep: in bounds, below EOF, pairwise disjoint) is sound and complete, so the tie's disjointness verdict is computed by a proved function; the append-only allocator hands out disjoint increasing blocks tiling [initial, EOF) for every request list; in every reachable state of the store model all extents are pairwise disjoint and end at or below the allocator EOF and, after Close, the file size (C05Store); the stale-EOF defect is refuted for the old code and proved repaired. Tie: an independent decoder written from the HDF5 format specification (tools/h5spec.py, Python) walks every file produced by generated histories (all superblock versions, filters, dense attributes, links, resizes, vlen, multi-session): extents inside the file and below the superblock EOF, pairwise disjoint (Coq extents_ok on the same lists), signatures/versions/sizes/checksums consistent (Coq crc32 and lookup3 on sampled ranges), decoded tree and values equal the logical oracle; each tolerated format deviation has a tag that must be a listed KNOWN-FINDING.",
-   note="Trusted: tools/h5spec.py is the specification reading (Python, not Coq) of the format subset the writer produces; unsupported features raise errors. 31 listed format deviations (e.g. CRC-32 where the spec uses lookup3, missing OHDR checksum) are genuine non-conformances without small repairs.",
-   design="7/C05", technique="Coq extent/allocator theorems + independent spec decoder over generated files"),
+   text="Theorems (Coq): extents_ok (sorted sweep: in bounds, below EOF, pairwise disjoint) is sound and complete, so the tie's disjointness verdict is computed by a proved function; the append-only allocator hands out disjoint increasing blocks tiling [initial, EOF) for every request list; in every reachable state of the store model all extents are pairwise disjoint and end at or below the allocator EOF and, after Close, the file size (C05Store); the stale-EOF defect is refuted for the old code and proved repaired. Tie: an independent decoder written from the HDF5 format specification (tools/h5spec.py, Python) walks every file produced by generated histories (all superblock versions, filters, dense attributes, links, resizes, vlen, multi-session): extents inside the file and below the superblock EOF, pairwise disjoint (Coq extents_ok on the same lists), signatures/versions/sizes/checksums consistent (Coq crc32 and lookup3 on sampled ranges), decoded tree and values equal the logical oracle; each tolerated format deviation has a tag that must be a listed KNOWN-FINDING. Specification decoders in Coq (Spec/Format*.v, written from the HDF5 File Format Specification 3.0, not from the Go code): strict and tolerant decoders for every on-disk structure the writer produces (superblock v0-v3, object headers v1/v2 with continuation, 14 message types incl. all datatype classes, local/global/fractal heaps, v1/v2 B-tree nodes, SNOD); every metadata encoder of the writer (the C11 Gallina transcriptions, tied byte-exactly to Go) is proved against them (Props/C05Spec.v): for all well-formed inputs the strict decoder returns the logical value, or, for each listed deviation, the strict decoder rejects and the tolerant decoder accepts reporting exactly that deviation's tag; a checksum the strict decoder accepts is lookup3 of the covered bytes, the writer stores CRC-32. Tie: per structure located by the Python walker in the generated files (3000 sampled per quick run, every (kind,length,tags) class once) and in 297 reference-library files, Coq strict/tolerant verdict, tag set and decoded fields == the independent Python decoder; strict decoders accept the reference files.",
+   note="Trusted: tools/h5spec.py is the specification reading (Python, not Coq) of the format subset the writer produces; unsupported features raise errors. 31 listed format deviations (e.g. CRC-32 where the spec uses lookup3, missing OHDR checksum) are genuine non-conformances without small repairs. Spec theorems are universal for superblock, object header v2, dataspace, layout, symbol table, attribute info, link info and datatype classes 0/1/3/5/7, witness-level (vm_compute on the smallest value) for pipeline, link, attribute, array, vlen, compound, enum and object header v1; local heap, SNOD, v1/v2 B-tree, global heap and fractal heap have specification decoders but no encoder model, they are checked on real files only; cross-structure clauses (sorted symbol nodes, B-tree keys, reference counts, EOF, heap-ID address space) and whole-file reachability are decided by the Python walker, not in Coq. 33 listed format deviations.",
+   design="7/C05", technique="Coq extent/allocator theorems + Coq specification decoders with encoder-vs-specification theorems + two independent spec decoders (Coq, Python) over generated and reference files"),
  "C06": dict(
    text="Theorems (Coq): the value decoding the comparison relies on - dec_int (byte order, signedness, size) and dec_string (three paddings) - is the inverse of the format's encoding (bijection on well-formed elements, BE = reverse LE, range), plus refutation lemmas for the attribute ReadValue transcription (unsigned-as-signed, listed). Tie (exhaustive over the bundled corpus): for every file with an h5dump DDL every object is compared: group membership, kinds, shapes, types, integer/string values exactly, floats per DDL token precision; on every opened file typed values are compared with the Coq decoding of the raw element bytes and announced links with Children(). A discrepancy not in the committed (file, object, kind) list is a VIOLATION; listed ones are grouped into 8 root causes (KNOWN-FINDINGs).",
    note="Trusted: tools/ddl.py (h5dump DDL parser), the corpus DDL files as reference, float comparison at the printed precision. The Go reader itself is not modelled beyond value decoding; errors returned by the reader are not gating (unsupported features).",
